@@ -2,11 +2,14 @@
 //!
 //! Modelled kinds (obs compared with the extracted Coq model NV.Sam.Record):
 //!   wr  refs ftab dtab <record fields...>   -> hex of the line sam::io::Writer emits | Err
+//!   wh  HD SQ RG PG CO                        -> hex of the header text sam::io::Writer emits | Err
+//!   ph  hextext                               -> canonical dump of the header sam::io::Reader parses | Err
 //!   pr  refs ptab hexline                   -> canonical dump of the record sam::io::Reader parses | Err:<column>
 //! Implementation-only oracles (the property itself):
 //!   rt  seed n     header + n generated records: SAM write/read (eager + lazy), fixed point,
 //!                  BAM write/read, SAM->BAM->SAM, BAM->SAM->BAM
 //!   hdr seed       generated header: SAM write/read, fixed point, BAM write/read
+//!   lz  refs hexline  lazy sam::Record on a given line: conversion equals the eager parse, same re-rendered text
 //!   fsw start n    float oracle hypothesis parse(fmt b) = b on bit patterns start..start+n
 //!                  (scalar `f` = lexical format, `B:f` = Display format), through the public API
 
